@@ -80,6 +80,28 @@ Theorem c02_checkpoint_refuted :
 Proof. exact k1_checkpointed_entry_replaced. Qed.
 Print Assumptions c02_checkpoint_refuted.
 
+(* c02_checkpoint_k2_refuted (C02-K2, monitor code 3): the C01-K2 history extended by the deposed leader's
+   checkpoint of the acknowledged watermark: an Install whose frontier round every voter answers, but which
+   loses the identity-page reply of a holder while the stable voters still reproduce the quorum LEO, drops the
+   acknowledged (and checkpointed) entry; after the next failover node 1 considers offset 1 committed with the
+   old entry, nodes 2 and 3 with the new one. *)
+Theorem c02_checkpoint_k2_refuted :
+  let c := snd (run_model k1_cfg (cluster_init k1_cfg) k2_ops) in
+  fst (run_model k1_cfg (cluster_init k1_cfg) k2_ops) =
+    [ RInstalled (1, 1, 1) 0 0; RErr EQuorumUnavailable; RInstalled (1, 2, 2) 0 0;
+      RReceipt (1, 2, 2) (TUser 2) 1 1 1; RBool true; RInstalled (1, 3, 3) 0 0; RNone;
+      RInstalled (1, 4, 4) 0 0; RReceipt (1, 4, 4) (TUser 3) 1 1 1; RReceipt (1, 4, 4) (TUser 4) 2 2 2 ] /\
+  option_map i_cmd (committed_entry c 1 1) = Some (TUser 2) /\
+  option_map i_cmd (committed_entry c 2 1) = Some (TUser 3) /\
+  option_map i_cmd (committed_entry c 3 1) = Some (TUser 3) /\
+  C02_monitor (model_case k1_cfg k2_ops) = 3.
+Proof. exact k2_checkpointed_entry_replaced. Qed.
+Print Assumptions c02_checkpoint_k2_refuted.
+
+Theorem c02_k2_refuting_schedule_is_bounded : run_bounded k1_cfg (cluster_init k1_cfg) k2_ops.
+Proof. exact k2_ops_bounded. Qed.
+Print Assumptions c02_k2_refuting_schedule_is_bounded.
+
 Theorem c02_refuting_schedule_is_bounded : run_bounded k1_cfg (cluster_init k1_cfg) k1_ops.
 Proof. exact k1_ops_bounded. Qed.
 Print Assumptions c02_refuting_schedule_is_bounded.
